@@ -23,6 +23,17 @@
 #ifndef POPS
 #define POPS 0x03           /* operations of process 2: bit 0 put, 1 control put */
 #endif
+/* optional per-position operation sets of process 1 (default OPS everywhere): the loop is unrolled with a concrete position */
+#ifndef OPS0
+#define OPS0 OPS
+#endif
+#ifndef OPS1
+#define OPS1 OPS
+#endif
+#ifndef OPS2
+#define OPS2 OPS
+#endif
+#define OPSET(i) ((i) == 0 ? (OPS0) : (i) == 1 ? (OPS1) : (OPS2))
 /* a failed check ends its path: every reported failure is a first deviation, not a consequence of an earlier one */
 #define CHECK(c, msg) do { VF_ASSERT(c, msg); VF_ASSUME(c); } while (0)
 static struct S_class_2eFIX8_3a_3aFilePersister fp1, fp2;
@@ -54,23 +65,35 @@ int main(void)
   for (int i = 0; i < K; i++) {
     if (vf_fs_crashed) break;
     uint8_t op = nondet_u8(); uint32_t a = nondet_u32(), b = nondet_u32(); uint8_t d0 = nondet_u8(), d1 = nondet_u8(), len = nondet_u8();
-    VF_ASSUME(op < 3 && ((OPS >> op) & 1) && a <= MAXSEQ && b <= 1000 && len >= 1 && len <= 2);
+    VF_ASSUME(op < 3 && ((OPSET(i) >> op) & 1) && a <= MAXSEQ && b <= 1000 && len >= 1 && len <= 2);
 #ifdef LENC
     len = LENC;
 #endif
     cx_op[i] = op; cx_a[i] = a; cx_b[i] = b; cx_d0[i] = d0; cx_d1[i] = d1; cx_len[i] = len;
-    if ((OPS & 1) && op == 0) {
+#ifdef KF_FP_SLOT0
+    /* known finding: a message stored while the index file is still empty lands in index slot 0 and is overwritten by the
+       next control record. Complement: the first operation of a fresh store is a control put */
+    if (i == 0) VF_ASSUME(op == 1);
+#endif
+    uint32_t op_start = vf_fs_syscalls;
+    if ((OPSET(i) & 1) && op == 0) {
       uint8_t d[2] = { d0, d1 };
       uint8_t ok = vf_fp_put(&fp1, a, d, len) & 1;
+#ifdef KF_FP_INDEX_FIRST
+      /* known finding: put() writes the index record before the data; a crash between the two leaves an index record without
+         data (that number can never be stored again, and the next put's bytes appear under it). Complement: no crash right
+         after the index write (3rd system call of an accepted put: lseek, lseek, write index, write data) */
+      VF_ASSUME(!(vf_fs_crashed && vf_fs_crash_at == op_start + 3));
+#endif
       if (!vf_fs_crashed) {
         CHECK(ok == (a != 0 && !r_has[a]), "C27: storing to 0 or to an occupied number is refused, otherwise accepted");
         if (a != 0 && !r_has[a]) { r_has[a] = 1; r_len[a] = len; r_dat[a][0] = d0; r_dat[a][1] = d1; }
       } else if (a != 0 && !r_has[a]) { fl = 1; fa = a; fd0 = d0; fd1 = d1; flen = len; }
-    } else if ((OPS & 2) && op == 1) {
+    } else if ((OPSET(i) & 2) && op == 1) {
       uint8_t ok = vf_fp_putc(&fp1, a, b) & 1;
       if (!vf_fs_crashed) { CHECK(ok, "C27: control put succeeds"); r_hasc = 1; r_ca = a; r_cb = b; }
       else { fl = 2; fa = a; fb = b; }
-    } else if ((OPS & 4) && op == 2) {
+    } else if ((OPSET(i) & 4) && op == 2) {
       uint8_t out[8]; int n = (int)vf_fp_get(&fp1, a, out);
       if (!vf_fs_crashed) CHECK((n >= 0) == (a != 0 && r_has[a]), "C27: get hits exactly the stored numbers");
     }
@@ -94,8 +117,12 @@ int main(void)
   CHECK(!__vf_exc_pending, "C27: no exception"); __vf_exc_pending = 0;
   probe(&fp2, 0);
 #ifdef VF_COVER
+#if (OPS) & 1
   if (cx_crash_at != 0 && fl == 1) VF_REACH();          /* a crash inside a message store is reachable */
+#endif
+#if (OPS) & 2
   if (cx_crash_at != 0 && fl == 2) VF_REACH();          /* a crash inside a control store is reachable */
+#endif
 #endif
   for (int j = 0; j < KP; j++) {
     uint8_t op = nondet_u8(); uint32_t a = nondet_u32(), b = nondet_u32(); uint8_t d0 = nondet_u8(), d1 = nondet_u8(), len = nondet_u8();
@@ -104,6 +131,9 @@ int main(void)
     len = LENC;
 #endif
     cx_pop[j] = op; cx_pa[j] = a; cx_pb[j] = b; cx_pd0[j] = d0; cx_pd1[j] = d1; cx_plen[j] = len;
+#ifdef KF_FP_SLOT0
+    if (j == 0 && cx_done == 0) VF_ASSUME(op == 1);          /* nothing completed before the crash: still a fresh store */
+#endif
     if ((POPS & 1) && op == 0) {
       uint8_t d[2] = { d0, d1 };
       uint8_t ok = vf_fp_put(&fp2, a, d, len) & 1;
